@@ -622,6 +622,14 @@ func explicitPrefix(e *Env, fv *foundViolation) []workerlib.ExplicitRun {
 		if to := ses.From + (fv.V.RunIndex+1)*128; to < ses.To {
 			ses.To = to
 		}
+	case "family":
+		if to := ses.From + fv.V.RunIndex + 1; to < ses.To {
+			ses.To = to
+		}
+	case "repeat":
+		if to := ses.From + fv.V.RunIndex/2 + 1; to < ses.To {
+			ses.To = to
+		}
 	}
 	ses.StopOnViol = false
 	pr := runWorker(e, &ses, 2, 15*time.Minute)
